@@ -14,6 +14,34 @@ pub struct Disc {
     pub detail: String,
 }
 
+/// one judgement of C03 that failed (tags, explicitness, automatic tagging)
+#[derive(Clone, Debug, serde::Serialize)]
+pub struct TagDisc {
+    pub clause: &'static str,
+    pub at: String,
+    pub detail: String,
+    pub tagging: Tagging,
+    /// keyword of the source tag: None = no keyword, Some(true) = EXPLICIT
+    pub keyword: Option<bool>,
+    /// number of anonymous nested types between the type assignment and the position
+    pub depth: usize,
+    /// assignment | component | alternative | element | item
+    pub position: &'static str,
+    /// choice | open | other: what the tagged type resolves to
+    pub target: &'static str,
+    pub expected_explicit: Option<bool>,
+    pub got_explicit: Option<bool>,
+}
+
+/// counters of what C03 judged (for evidence and non-triviality)
+#[derive(Clone, Debug, Default, serde::Serialize)]
+pub struct TagStats {
+    pub source_tags: usize,
+    pub untagged_positions: usize,
+    pub automatic_items: usize,
+    pub max_depth_tagged: usize,
+}
+
 // --- documented naming rule (rasn backend doc comments): hyphens removed, title/snake case
 
 pub fn title_case(name: &str) -> String {
@@ -78,6 +106,9 @@ pub struct Walker<'a> {
     pub visited: BTreeSet<String>,
     /// (container item, field name, payload type string without Option) for the by-value graph
     pub boxed_off_cycle: usize,
+    pub tag_out: Vec<TagDisc>,
+    pub tag_stats: TagStats,
+    pub depth: usize,
 }
 
 fn needs_unnesting(ty: &Ty) -> bool {
@@ -111,6 +142,113 @@ impl<'a> Walker<'a> {
 
     fn ext_implied(&self) -> bool {
         self.module.ext_implied
+    }
+
+    /// what the tagged type resolves to through untagged references
+    fn tag_target(&self, ty: &Ty) -> &'static str {
+        let mut cur = ty;
+        for _ in 0..16 {
+            match cur {
+                Ty::Choice(_) => return "choice",
+                Ty::Any => return "open",
+                Ty::Ref { name, .. } => match self.scope.get(name) {
+                    Some(d) if d.tag.is_none() => cur = &d.ty,
+                    _ => return "other",
+                },
+                _ => return "other",
+            }
+        }
+        "other"
+    }
+
+    /// C03: a source tag (or its absence) against the rasn tag attribute of the same position
+    pub fn judge_tag(&mut self, model: Option<&Tag>, tagged_ty: &Ty, got: Option<&crate::proj::TagAttr>, at: &str, position: &'static str) {
+        let target = self.tag_target(tagged_ty);
+        let tagging = self.module.tagging;
+        let depth = self.depth;
+        let mut push = |w: &mut Self, clause: &'static str, detail: String, keyword: Option<bool>, exp: Option<bool>, got_e: Option<bool>| {
+            w.tag_out.push(TagDisc { clause, at: at.to_string(), detail, tagging, keyword, depth, position, target, expected_explicit: exp, got_explicit: got_e });
+        };
+        match (model, got) {
+            (None, None) => self.tag_stats.untagged_positions += 1,
+            (None, Some(g)) => {
+                self.tag_stats.untagged_positions += 1;
+                push(self, "C03:tag-spurious", format!("no tag in the source, bindings carry tag({}, {}{})", g.class, g.num, if g.explicit { ", explicit" } else { "" }), None, None, Some(g.explicit));
+            }
+            (Some(t), None) => {
+                self.tag_stats.source_tags += 1;
+                push(self, "C03:tag-missing", format!("source tag [{:?} {}] is not applied by the bindings", t.class, t.num), t.mode, None, None);
+            }
+            (Some(t), Some(g)) => {
+                self.tag_stats.source_tags += 1;
+                self.tag_stats.max_depth_tagged = self.tag_stats.max_depth_tagged.max(depth);
+                let class = match t.class {
+                    Class::Context => "context",
+                    Class::Application => "application",
+                    Class::Private => "private",
+                    Class::Universal => "universal",
+                };
+                if g.class != class || g.num != t.num as u64 {
+                    push(self, "C03:tag-value", format!("source tag [{class} {}], bindings carry ({}, {})", t.num, g.class, g.num), t.mode, None, Some(g.explicit));
+                    return;
+                }
+                // X.680 31.2.7; on a CHOICE-typed position rasn tags explicitly whatever the marking says
+                let expected = if target == "choice" {
+                    None
+                } else {
+                    Some(match t.mode {
+                        Some(k) => k,
+                        None => match tagging {
+                            Tagging::Explicit | Tagging::NoClause => true,
+                            Tagging::Implicit | Tagging::Automatic => target == "open",
+                        },
+                    })
+                };
+                if let Some(e) = expected {
+                    if e != g.explicit {
+                        push(
+                            self,
+                            "C03:explicit",
+                            format!("tag [{class} {}] (keyword {:?}, module {:?}, tagged type: {target}) is applied {}, X.680 31.2.7 makes it {}", t.num, t.mode, tagging, if g.explicit { "explicitly" } else { "implicitly" }, if e { "explicit" } else { "implicit" }),
+                            t.mode,
+                            Some(e),
+                            Some(g.explicit),
+                        );
+                    }
+                }
+            }
+        }
+    }
+
+    /// C03: automatic tagging of a SEQUENCE / SET / CHOICE item
+    fn judge_automatic(&mut self, root: &[Comp], ext: &Option<Vec<Addition>>, flags: &BTreeSet<String>, rname: &str, at: &str) {
+        let mut outside = root.iter().filter(|c| c.tag.is_some()).count();
+        let mut in_groups = 0;
+        for a in ext.iter().flatten() {
+            match a {
+                Addition::Comp(c) => outside += c.tag.is_some() as usize,
+                Addition::Group { comps, .. } => in_groups += comps.iter().filter(|c| c.tag.is_some()).count(),
+            }
+        }
+        let expected = self.module.tagging == Tagging::Automatic && outside + in_groups == 0;
+        let got = flags.contains("automatic_tags");
+        self.tag_stats.automatic_items += 1;
+        if expected != got {
+            let tagging = self.module.tagging;
+            let depth = self.depth;
+            self.tag_out.push(TagDisc {
+                clause: "C03:automatic",
+                at: at.to_string(),
+                detail: format!("{rname}: automatic_tags = {got}, expected {expected} (module {:?}; tagged components: {outside} outside extension groups, {in_groups} inside)", tagging),
+                tagging,
+                keyword: None,
+                depth,
+                position: if outside == 0 && in_groups > 0 { "item:tags-only-in-groups" } else { "item" },
+                target: "other",
+                expected_explicit: Some(expected),
+                got_explicit: Some(got),
+            });
+        }
     }
 
     /// the token a component / element of this type must have (after removing Option/Box)
@@ -171,6 +309,9 @@ impl<'a> Walker<'a> {
                 if !rs.named && !(rs.fields.is_empty()) {
                     self.d("C02:kind", at, format!("{rname} is a tuple struct, expected named fields"));
                     return;
+                }
+                if !rname.contains("ExtGroup") {
+                    self.judge_automatic(&f.root, &f.ext, &rs.attrs.flags, rname, at);
                 }
                 if rs.attrs.flags.contains("set") != is_set {
                     self.d("C02:set", at, format!("{rname}: #[rasn(set)] = {} but model SET = {is_set}", !is_set));
@@ -245,7 +386,9 @@ impl<'a> Walker<'a> {
                                 root: comps.to_vec(),
                                 ext: None,
                             });
+                            self.depth += 1;
                             self.verify_group_struct(&gty, &hoisted, &cat);
+                            self.depth -= 1;
                         }
                     }
                 }
@@ -268,6 +411,7 @@ impl<'a> Walker<'a> {
                     );
                 }
                 let alts = crate::gen::flat_comps(&a.root, &a.ext);
+                self.judge_automatic(&a.root, &a.ext, &re.attrs.flags, rname, at);
                 if re.variants.len() != alts.len() {
                     self.d(
                         "C02:count",
@@ -351,6 +495,13 @@ impl<'a> Walker<'a> {
                     return;
                 };
                 let elem = unbox(elem).to_string();
+                if o.etag.is_some() {
+                    // the element type is hoisted as Anonymous<Name>; the element's tag belongs there
+                    let got = self.rmod.find_struct(&elem).map(|s| s.attrs.tag.clone()).or_else(|| self.rmod.find_enum(&elem).map(|e| e.attrs.tag.clone())).flatten();
+                    let got = if elem == format!("Anonymous{rname}") { got } else { None };
+                    let et = (*o.elem).clone();
+                    self.judge_tag(o.etag.as_ref(), &et, got.as_ref(), &format!("{at}[]"), "element");
+                }
                 match &*o.elem {
                     Ty::Ref { .. } if o.etag.is_none() => {
                         let exp = self.expect_member_type(&o.elem, "");
@@ -365,7 +516,9 @@ impl<'a> Walker<'a> {
                             self.d("C02:hoist-name", at, format!("{rname} element {elem}, expected {exp}"));
                         }
                         let other = other.clone();
+                        self.depth += 1;
                         self.verify_type(&other, &elem, &format!("{at}[]"));
+                        self.depth -= 1;
                     }
                 }
             }
@@ -468,6 +621,8 @@ impl<'a> Walker<'a> {
             (Some(f), false) => self.d("C02:default", at, format!("default = {f} on a component without DEFAULT")),
             (None, false) => {}
         }
+        // C03: the component's / alternative's tag
+        self.judge_tag(c.tag.as_ref(), &c.ty, attrs.tag.as_ref(), at, if in_choice { "alternative" } else { "component" });
         // type shape
         let payload = unbox(inner).to_string();
         let hoisted = format!("{parent}{}", title_case(&c.name));
@@ -479,7 +634,9 @@ impl<'a> Walker<'a> {
         }
         if needs_unnesting(&c.ty) {
             let t = c.ty.clone();
+            self.depth += 1;
             self.verify_type(&t, &hoisted, at);
+            self.depth -= 1;
         }
     }
 }
@@ -568,8 +725,15 @@ pub fn by_value_cycle(rmods: &[RModule]) -> Option<Vec<String>> {
 
 /// Check a whole compilation (Ok, no warnings) against its model.
 pub fn check_set(ms: &ModuleSet, rmods: &[RModule]) -> Vec<Disc> {
+    check_set_full(ms, rmods).0
+}
+
+/// structure discrepancies (C02 / C05), tag discrepancies (C03) and what C03 judged
+pub fn check_set_full(ms: &ModuleSet, rmods: &[RModule]) -> (Vec<Disc>, Vec<TagDisc>, TagStats) {
     let scope = Scope::from_set(ms);
     let mut out = vec![];
+    let mut tag_out = vec![];
+    let mut stats = TagStats::default();
     for m in &ms.modules {
         let rname = snake_case(&m.name);
         let Some(rmod) = rmods.iter().find(|r| r.name == rname) else {
@@ -587,10 +751,17 @@ pub fn check_set(ms: &ModuleSet, rmods: &[RModule]) -> Vec<Disc> {
             out: vec![],
             visited: BTreeSet::new(),
             boxed_off_cycle: 0,
+            tag_out: vec![],
+            tag_stats: TagStats::default(),
+            depth: 0,
         };
         for it in &m.items {
-            if let Item::Type { name, ty, .. } = it {
-                w.verify_type(ty, &title_case(name), name);
+            if let Item::Type { name, ty, tag } = it {
+                let rname = title_case(name);
+                // C03: the tag of the type assignment sits on the item itself
+                let got = rmod.find_struct(&rname).map(|s| s.attrs.tag.clone()).or_else(|| rmod.find_enum(&rname).map(|e| e.attrs.tag.clone())).flatten();
+                w.judge_tag(tag.as_ref(), ty, got.as_ref(), name, "assignment");
+                w.verify_type(ty, &rname, name);
             }
         }
         // nothing extra: every struct/enum of the module was reached from a model type
@@ -607,6 +778,11 @@ pub fn check_set(ms: &ModuleSet, rmods: &[RModule]) -> Vec<Disc> {
             }
         }
         out.extend(w.out);
+        tag_out.extend(w.tag_out);
+        stats.source_tags += w.tag_stats.source_tags;
+        stats.untagged_positions += w.tag_stats.untagged_positions;
+        stats.automatic_items += w.tag_stats.automatic_items;
+        stats.max_depth_tagged = stats.max_depth_tagged.max(w.tag_stats.max_depth_tagged);
     }
     if let Some(cycle) = by_value_cycle(rmods) {
         out.push(Disc {
@@ -615,5 +791,5 @@ pub fn check_set(ms: &ModuleSet, rmods: &[RModule]) -> Vec<Disc> {
             detail: format!("by-value containment cycle without Box/collection: {cycle:?}"),
         });
     }
-    out
+    (out, tag_out, stats)
 }
